@@ -3,7 +3,7 @@
    ran the same scenario on the real package); [run_flat] decodes it, interprets
    it on the model and returns the flat transcript, which must equal the
    implementation's transcript.  Executable only; no proofs here. *)
-From Ice Require Import Base Spec Varint Chunk Postings Crc32 Footer Stored DocValues Dict.
+From Ice Require Import Base Spec Varint Chunk Postings Crc32 Footer Stored DocValues Dict Container.
 
 (* ---- parser over a flat list of numbers ---- *)
 Definition P (A : Type) := list N -> option (A * list N).
@@ -52,7 +52,8 @@ Inductive op :=
 | OStats (slot : N) (f : bytes)
 | OContains (slot : N) (f t : bytes)
 | OFooter (slot : N) (file : bytes)
-| OLayout (slot : N) (dvflags : list bool).
+| OLayout (slot : N) (dvflags : list bool)
+| OContainer (slot : N) (file : bytes).
 
 Definition piterop : P iter_op :=
   let%p k := pnum in
@@ -86,6 +87,7 @@ Definition pop : P op :=
   | 17 => let%p s := pnum in let%p f := pbytes in let%p t := pbytes in pret (OContains s f t)
   | 20 => let%p s := pnum in let%p b := pbytes in pret (OFooter s b)
   | 21 => let%p s := pnum in let%p fl := plist pbool in pret (OLayout s fl)
+  | 22 => let%p s := pnum in let%p b := pbytes in pret (OContainer s b)
   | _ => fun _ => None
   end.
 
@@ -321,6 +323,27 @@ Definition step (st : list Slot) (o : op) : list Slot * list N :=
            | _ => [4294967294; 1]
            end)
   | OLayout s fl => (st, layout (slot_full st s) fl)
+  | OContainer s file =>
+      (* the byte-exact loader models on the real bytes of the file *)
+      (st, match parse_footer file with
+           | Ok ft =>
+               let data := drop_last footerLen file in
+               match load_fields data (ft_fields ft),
+                     load_stored_chunk_offsets data (ft_stored ft),
+                     load_dv_locs data (ft_dv ft) (ft_numDocs ft)
+                                  (match load_fields data (ft_fields ft) with Ok fs => length fs | _ => O end) with
+               | Ok fs, Ok offs, Ok dvl =>
+                   let docoffs :=
+                     map (fun d => match doc_stored_offset data (ft_stored ft) (N.of_nat d) with
+                                   | Ok (_, v) => v | _ => 4294967294 end)
+                         (seq 0 (N.to_nat (ft_numDocs ft))) in
+                   w_list (fun f : field_rec => let '(dl, nm, dc, fq) := f in [dl] ++ w_bytes nm ++ [dc; fq]) fs ++
+                   w_list (fun x => [x]) offs ++ w_list (fun x => [x]) docoffs ++
+                   w_list (fun p : N * N => [fst p; snd p]) dvl
+               | _, _, _ => [4294967294; 1]
+               end
+           | _ => [4294967294; 1]
+           end)
   end.
 
 Fixpoint run_ops (st : list Slot) (ops : list op) : list N :=
